@@ -1,6 +1,7 @@
 import ConcVerif.Proof.HB
 import ConcVerif.Proof.HBLock
 import ConcVerif.Proof.HBPub
+import ConcVerif.Proof.HBComplete
 import ConcVerif.Proof.HBLockFam
 import ConcVerif.Proof.HBBarrier
 import ConcVerif.Proof.HBLatch
@@ -13,7 +14,8 @@ transitively; C++20 release sequences; `unlock → lock` edges except `unlock_sh
 spawn/join), `Race` a pair of conflicting plain accesses not ordered by it, `raceFree` the executable
 vector-clock checker that `Driver/HB.lean` runs on every observed trace of every client.
 
-(i)   `C07_raceFree_sound` / `C07_raceFree_ordered`: the checker is sound for the declarative definition.
+(i)   `C07_raceFree_sound` / `C07_raceFree_ordered` / `C07_raceFree_iff`: the checker DECIDES the
+      declarative definition (sound: an accepted trace has no race; complete: it raises no false alarm).
 (ii)  `C07_lockset`: one mutex held at every access (exclusively at writes) ⇒ every access happens
       after every earlier conflicting one — for EVERY trace consistent with mutex semantics.
 (iii) `C07_publication`: release store / RMW-continued release sequence → acquire load.
@@ -44,6 +46,22 @@ theorem C07_clocks_justified (tr : Trace) (t u : Tid) (e : Ev) (i : Nat) (hi : t
     (hl : lt tr i u ≤ vget ((vrun {} tr).c t) u) : ∃ j, Anch tr t j ∧ HBeq tr i j :=
   ((just_vrun tr).jC t).2 i u e hi hl
 
+/-- Completeness: a trace without a data race is accepted — a REJECT of the checker is always a
+genuine race of the declarative definition. -/
+theorem C07_raceFree_complete {tr : Trace} (h : ¬ Race tr) : raceFree tr = true :=
+  raceFree_complete h
+
+/-- The executable checker decides the declarative definition. -/
+theorem C07_raceFree_iff (tr : Trace) : raceFree tr = true ↔ ¬ Race tr :=
+  raceFree_iff tr
+
+/-- Vector clocks reflect happens-before exactly (completeness half): if `i` happens before `j`, the
+clock of `j`'s thread right after `j` knows the local time of `i`. -/
+theorem C07_clocks_complete {tr : Trace} {i j : Nat} {t u : Tid} {ei ej : Ev} (h : HB tr i j)
+    (hi : tr[i]? = some (t, ei)) (hj : tr[j]? = some (u, ej)) :
+    lt tr i t ≤ vget ((vrun {} (tr.take (j + 1))).c u) t :=
+  hb_known h hi hj
+
 /-! ## (ii) lockset theorem -/
 
 /-- **Lockset.**  For every trace that is consistent with the semantics of (shared) mutexes, any number
@@ -59,6 +77,10 @@ theorem C07_lockset_no_race {tr : Trace} (hok : MutexOK tr) (hall : ∀ x, ∃ m
   intro ⟨i, j, hij, ⟨x, hc⟩, hn⟩
   obtain ⟨m, hls⟩ := hall x
   exact hn (lockset_hb hok hls hij hc)
+
+/-- … and is accepted by the executable checker. -/
+theorem C07_lockset_accepted {tr : Trace} (hok : MutexOK tr) (hall : ∀ x, ∃ m, LockSet tr x m) : raceFree tr = true :=
+  raceFree_complete (C07_lockset_no_race hok hall)
 
 /-- The mutex-consistency hypothesis yields mutual exclusion (it is not an extra assumption about
 who holds what): two different threads never hold conflicting modes of a mutex at the same time. -/
@@ -200,6 +222,12 @@ theorem C07_lockfam_lockset {cap : Bool} {es : List (Tid × Ev)} {s : St} (h : r
     HB.MutexOK (hbTrace es) ∧ HB.LockSet (hbTrace es) 0 0 :=
   (hb_sim h).2
 
+/-- … and the executable race checker accepts every trace the wrapper model accepts: a REJECT of the
+`hb` driver on a wrapper trace can only come with a rejection by the wrapper model. -/
+theorem C07_lockfam_accepted {cap : Bool} {es : List (Tid × Ev)} {s : St} (h : run true cap es = some s) :
+    HB.raceFree (hbTrace es) = true :=
+  HB.raceFree_complete (lockfam_no_race h)
+
 def hbWitness : List (Tid × Ev) :=
   [(1, .callW (.st 5)), (1, .lk .X .block true), (1, .wr 5), (1, .rel .X), (1, .retW .unit),
    (2, .callW .ld), (2, .lk .X .block true), (2, .rd 5), (2, .rel .X), (2, .retW (.val 5))]
@@ -221,6 +249,10 @@ theorem C07_barrier_fields {P : List Tid} {es : List (Tid × Ev)} {s : St} (h : 
 theorem C07_barrier_lockset {P : List Tid} {es : List (Tid × Ev)} {s : St} (h : run P es = some s) :
     HB.MutexOK (hbTrace es) ∧ HB.LockSet (hbTrace es) 0 0 :=
   (hb_sim h).2
+
+theorem C07_barrier_accepted {P : List Tid} {es : List (Tid × Ev)} {s : St} (h : run P es = some s) :
+    HB.raceFree (hbTrace es) = true :=
+  HB.raceFree_complete (barrier_no_race h)
 
 def hbWitness : List (Tid × Ev) :=
   [(1, .call .wait), (1, .mlk), (1, .plain), (1, .cwt ⟨none, some 1, some 0⟩),
